@@ -123,6 +123,22 @@ pub mod degenerate {
     // the fallible reinterpretation for N = 0: an empty slice is accepted, a non-empty one is refused (not a panic of the const evaluator)
     pub const TRY0: [bool; 4] = [GenericArray::<u32, U0>::try_from_slice(&[]).is_ok(), GenericArray::<u32, U0>::try_from_slice(&[1, 2]).is_err(),
                                  GenericArray::<u8, U0>::try_from_slice(&[]).is_ok(), GenericArray::<(), U0>::try_from_slice(&[()]).is_err()];
+    // "for every length": the constant default of a 1 MiB array is assembled from log2(N) nested constants; an implementation that visits the
+    // N slots one by one in the const evaluator exceeds its step budget (deny-by-default lint `long_running_const_eval`) and valid user
+    // items such as `static BUF: GenericArray<u8, U1048576> = GenericArray::const_default();` are rejected
+    pub const HUGE_DEFAULT_ENDS: [u8; 3] = {
+        let a = GenericArray::<u8, generic_array::typenum::U1048576>::const_default();
+        let s = a.as_slice();
+        [s[0], s[1048575], (s.len() == 1048576) as u8]
+    };
+    // the constant-length repeat form inside a length-generic const fn / associated const (the length mentions a generic parameter)
+    pub const fn splat<const K: usize>(x: u8) -> GenericArray<u8, generic_array::ConstArrayLength<K>>
+    where
+        generic_array::typenum::Const<K>: generic_array::IntoArrayLength,
+    {
+        arr![x; { K }]
+    }
+    pub const SPLAT5: GenericArray<u8, U5> = splat::<5>(0xA5);
     pub const LONG_ENDS: [u8; 3] = [LONG.as_slice()[0], LONG.as_slice()[1024], (LONG.as_slice().len() == 1025) as u8];
     harness! { unwind 6, fn transmutes() {
         assert!(WORD == u32::from_ne_bytes([0x11, 0x22, 0x33, 0x44]), "const_transmute to a more aligned type differs from the bytes");
@@ -133,6 +149,9 @@ pub mod degenerate {
         let rt: u32 = unsafe { generic_array::const_transmute::<[u8; 4], u32>([0x11, 0x22, 0x33, 0x44]) };
         assert!(rt == WORD, "const_transmute at run time differs from the const item");
         assert!(LONG_ENDS[0] == 0x5A && LONG_ENDS[1] == 0x5A && LONG_ENDS[2] == 1);
+        assert!(HUGE_DEFAULT_ENDS[0] == 0 && HUGE_DEFAULT_ENDS[1] == 0 && HUGE_DEFAULT_ENDS[2] == 1, "const_default() of a 1 MiB array");
+        let s5 = any_upto(4);
+        assert!(SPLAT5[s5] == 0xA5 && splat::<5>(0xA5)[s5] == SPLAT5[s5], "arr![x; {{ K }}] in a const fn differs between const item and run time");
         let t = any_upto(3);
         assert!(TRY0[t], "try_from_slice for N = 0 in a const item: empty accepted, non-empty refused");
         assert!(GenericArray::<u32, U0>::try_from_slice(&[]).is_ok() && GenericArray::<u32, U0>::try_from_slice(&[1, 2]).is_err());
